@@ -12,6 +12,7 @@ one option after every constructor call and assignment; `_MODEL_` equals the PyD
 
 Values travel as the token syntax documented in lean/Drivers/PyObj.lean.
 """
+import hashlib
 import json
 import math
 import os
@@ -151,6 +152,11 @@ def tree_float(t):
     return -v if t[1] else v
 
 
+def digest(d):
+    """An opaque word standing for a model description (the reflection model treats models as opaque)."""
+    return hashlib.sha1(json.dumps(d, sort_keys=True, default=str).encode()).hexdigest()[:16]
+
+
 def describe_model(m):
     """Structural description of a PyDSDL composite (used on both sides of the `_MODEL_` comparison)."""
     import pydsdl
@@ -235,6 +241,12 @@ class Worker:
             return memoryview(a)
         if k == "o" and t[1] == 999999:
             return (i for i in range(3))   # a foreign object: a generator
+        if fl == "sub" and k == "o":
+            base = self.real(t, ty)        # an instance of a user-defined subclass of the generated class
+            sub = type("Sub" + type(base).__name__, (type(base),), {})
+            o = sub.__new__(sub)
+            o.__dict__.update(base.__dict__)
+            return o
         if k == "N":
             return None
         if k == "b":
@@ -301,7 +313,7 @@ class Worker:
             if v.ndim != 1:
                 dt = f"ND{v.ndim}{dt}"
             return ta(dt, [self.enc(x) for x in v.flatten()])
-        cid = self.cls_id.get(type(v))
+        cid = next((self.cls_id[b] for b in type(v).__mro__ if b in self.cls_id), None)   # a subclass instance IS-A generated class
         if cid is not None:
             c = self.by_id[cid]
             return to(cid, [self.enc(getattr(v, "_" + name, None)) for name in c["py"]])
@@ -383,7 +395,7 @@ class Worker:
             cls = self.classes[case["c"]]
             ty = {"k": "C", "c": case["c"]}
             d = cls() if case["d"] is None else self.real(parse(case["d"]))
-            src = self.real(parse(case["s"]), ty)
+            src = self.real(parse(case["s"]), ty, fl=case.get("fl"))
             r, v, m = self.attempt(lambda: ns.update_from_builtin(d, src))
             return {"r": r, "m": m, "v": self.enc(v) if r == "ok" else "", "same": v is d}
         if k == "alias":
@@ -397,8 +409,35 @@ class Worker:
                     continue
                 m = obj._MODEL_
                 out[a] = {"name": m.full_name, "major": m.version.major, "minor": m.version.minor, "cls": obj.__name__,
-                          "same_as_versioned": obj is getattr(mod, f"{a}_{m.version.minor}", None)}
+                          "same_as_versioned": obj is getattr(mod, f"{a}_{m.version.minor}", None),
+                          "model": describe_model(ns.get_model(obj))}
             return {"aliases": out, "others": sorted(n for n in vars(mod) if not n.startswith("_") and isinstance(getattr(mod, n), type))}
+        if k == "setalias":
+            # obj.field = pkg.Name_M()  -- an instance created through the newest-minor alias of the namespace package
+            import importlib
+            c = self.by_id[case["c"]]
+            o = self.classes[case["c"]]()
+            name = c["py"][case["f"]]
+            r0, alias, m0 = self.attempt(lambda: getattr(importlib.import_module(case["mod"]), case["alias"]))
+            if r0 != "ok":
+                return {"r": "other", "m": m0, "v": "N", "alias_cls": None}
+            x = alias()
+            r, _, m = self.attempt(lambda: setattr(o, name, x))
+            return {"r": r, "m": m, "v": self.enc(getattr(o, name)), "alias_cls": self.cls_id.get(alias), "stored_is": getattr(o, name) is x}
+        if k == "stale":
+            import importlib
+            def get():
+                obj = importlib.import_module(case["mod"])
+                for a in case["path"]:
+                    obj = getattr(obj, a)
+                return describe_model(ns.get_model(obj))
+            r, v, m = self.attempt(get)
+            return {"r": r, "m": m, "model": v}
+        if k == "svc":
+            cls = self.classes[case["c"]]
+            r1, _, m1 = self.attempt(lambda: ns.to_builtin(cls()))
+            r2, _, m2 = self.attempt(lambda: ns.update_from_builtin(cls(), {}))
+            return {"tb": r1, "tb_m": m1, "ufb": r2, "ufb_m": m2}
         if k == "snan":
             # a float32/float16 array holding signalling NaNs (enters through the zero-copy ndarray branch)
             np = self.np
@@ -566,6 +605,27 @@ class Schema:
     def data_classes(self):
         return [c for c in self.classes if c["kind"] == "data"]
 
+    def relatives(self, cid, limit=6):
+        """Classes an `isinstance` check of a field declared as class `cid` could confuse with it: other versions of the
+        same type (minor, then major), same short name in another namespace, structurally identical definitions."""
+        c, m = self.classes[cid], self.models[cid]
+        shape = (c["union"], [self.tokens(f["ty"]) for f in c["fields"]])
+        ranked = []
+        for d in self.data_classes():
+            if d["id"] == cid or "parent" in d and "parent" not in c:
+                continue
+            dm = self.models[d["id"]]
+            if dm.full_name == m.full_name:
+                rank = 0 if dm.version.major == m.version.major else 1
+            elif dm.short_name == m.short_name:
+                rank = 2
+            elif (d["union"], [self.tokens(f["ty"]) for f in d["fields"]]) == shape:
+                rank = 3
+            else:
+                continue
+            ranked.append((rank, -dm.version.minor if rank == 0 else 0, d["id"]))
+        return [i for _, _, i in sorted(ranked)[:limit]]
+
     def tokens(self, ty):
         k = ty["k"]
         if k == "B":
@@ -616,26 +676,43 @@ class WorkerFailed(RuntimeError):
 
 
 class NS:
-    """One root namespace: texts -> files -> PyDSDL model -> generated package."""
+    """One root namespace: texts -> files -> PyDSDL model -> generated package.
 
-    def __init__(self, ctx, label, texts, prior=None):
+    `prior`: an earlier revision generated first by the SAME process into another directory (per-process state).
+    `history`: earlier revisions (complete file sets, oldest first) generated one after the other, each by its own nnvg
+    run, into the SAME output directory; between two runs only the files that differ are rewritten (an edit), so
+    unchanged definitions keep their old modification time.  The classes under test are those of the last run.
+    """
+
+    def __init__(self, ctx, label, texts, prior=None, history=None):
         import pydsdl
         self.label = label
         self.texts = texts
         self.prior = prior
+        self.history = history
         self.dir = ctx.scratch / label
         self.src = self.dir / "src"
         self.out = self.dir / "out"
-        root = None
-        for rel, text in texts.items():
-            p = self.src / rel
-            p.parent.mkdir(parents=True, exist_ok=True)
-            p.write_text(text)
-            root = self.src / pathlib.Path(rel).parts[0]
+        env = dict(os.environ, PYTHONPATH=str(common.REPO / "src"))
+        root = self.src / pathlib.Path(next(iter(texts))).parts[0]
         self.root = root
+        nnvg = [common.PY, "-m", "nunavut", "--allow-unregulated-fixed-port-id", "--target-language", "py", "--outdir", str(self.out), str(root)]
+        self.gen_error = None
+        self.revision_models = []     # per revision of the history: PyDSDL composites (for the model tie)
+        have = {}
+        for n, rev in enumerate(history or []):
+            self._write(rev, have, aged=(n == 0))
+            have = dict(rev)
+            self.revision_models.append(pydsdl.read_namespace(str(root), [], allow_unregulated_fixed_port_id=True))
+            p = subprocess.run(nnvg, capture_output=True, text=True, env=env, timeout=900)
+            if p.returncode != 0:
+                self.gen_error = f"revision {n}: " + (p.stderr or p.stdout)[-1500:]
+                break
+        self._write(texts, have, aged=False)
         self.composites = pydsdl.read_namespace(str(root), [], allow_unregulated_fixed_port_id=True)
         self.schema = Schema(self.composites)
-        env = dict(os.environ, PYTHONPATH=str(common.REPO / "src"))
+        if self.gen_error is not None:
+            return
         if prior is not None:
             # ONE process generates twice: first the prior revision, then this one (nunavut.generate_types as a library)
             proot = None
@@ -651,14 +728,30 @@ class NS:
             p = subprocess.run([common.PY, "-c", code, str(proot), str(self.dir / "prior_out"), str(root), str(self.out)],
                                capture_output=True, text=True, env=env, timeout=900)
         else:
-            p = subprocess.run([common.PY, "-m", "nunavut", "--allow-unregulated-fixed-port-id", "--target-language", "py",
-                                "--outdir", str(self.out), str(root)], capture_output=True, text=True, env=env, timeout=900)
+            p = subprocess.run(nnvg, capture_output=True, text=True, env=env, timeout=900)
         self.gen_error = None if p.returncode == 0 else (p.stderr or p.stdout)[-1500:]
         if self.gen_error is None:
             try:
                 self.schema.resolve_modules(self.out)
             except FileNotFoundError as e:
                 self.gen_error = str(e)
+
+    def _write(self, texts, have, aged):
+        """Bring the source tree from `have` to `texts`, touching only the files that differ.  `aged`: the definitions
+        were written an hour ago (so everything generated from them is newer than they are)."""
+        import time
+        for rel in have:
+            if rel not in texts:
+                (self.src / rel).unlink()
+        for rel, text in texts.items():
+            if have.get(rel) == text:
+                continue
+            p = self.src / rel
+            p.parent.mkdir(parents=True, exist_ok=True)
+            p.write_text(text)
+            if aged:
+                t = time.time() - 3600
+                os.utime(p, (t, t))
 
     def run_worker(self, ctx, npdir, cases, tag):
         inp, outp = self.dir / f"cases_{tag}.json", self.dir / f"results_{tag}.json"
@@ -674,6 +767,7 @@ class NS:
 
 
 PRIOR = {}   # corpus label -> texts of a prior revision to be generated first in the same process
+HISTORY = {}  # corpus label -> earlier revisions generated one after the other into the same output directory
 
 
 def corpus_namespaces():
@@ -684,7 +778,85 @@ def corpus_namespaces():
         if "files" in j:
             out.append((f.stem, j["files"], j.get("cases", [])))
             PRIOR[f.stem] = j.get("prior")
+            HISTORY[f.stem] = j.get("history")
     return out
+
+
+# ------------------------------------------------------------------------------------------------------------
+# random namespaces: more versions of referenced types, and an earlier revision (regeneration history)
+# ------------------------------------------------------------------------------------------------------------
+import re as _re
+
+_DEF = _re.compile(r"^(?P<dir>.*/)(?P<port>\d+\.)?(?P<name>\w+)\.(?P<major>\d+)\.(?P<minor>\d+)\.dsdl$")
+
+
+def _parses(scratch, tag, texts):
+    import pydsdl
+    import shutil
+    d = scratch / ("try_" + tag)
+    shutil.rmtree(d, ignore_errors=True)
+    for rel, text in texts.items():
+        q = d / rel
+        q.parent.mkdir(parents=True, exist_ok=True)
+        q.write_text(text)
+    try:
+        pydsdl.read_namespace(str(d / pathlib.Path(next(iter(texts))).parts[0]), [], allow_unregulated_fixed_port_id=True)
+        return True
+    except pydsdl.FrontendError:
+        return False
+    finally:
+        shutil.rmtree(d, ignore_errors=True)
+
+
+def _referenced(texts):
+    """Data types without a fixed port-ID that other definitions nest: [(rel path, dotted reference)]."""
+    out = []
+    for rel, text in sorted(texts.items()):
+        m = _DEF.match(rel)
+        if not m or m["port"] or "\n---" in text:
+            continue
+        ref = ".".join(pathlib.Path(m["dir"]).parts + (m["name"], m["major"], m["minor"]))
+        if any(_re.search(r"(?m)^" + _re.escape(ref) + r"[ \[]", t) for r2, t in texts.items() if r2 != rel):
+            out.append((rel, ref))
+    return out
+
+
+def add_versions(rng, scratch, tag, texts, n=3):
+    """Give up to `n` nested types a newer minor version (same text: bit-compatible) and sometimes a new major version;
+    the definitions that nest them keep referring to the OLDER minor."""
+    out = dict(texts)
+    refs = _referenced(texts)
+    for rel, _ in rng.sample(refs, min(n, len(refs))):
+        m = _DEF.match(rel)
+        add = {f"{m['dir']}{m['name']}.{m['major']}.{int(m['minor']) + rng.choice([1, 1, 3])}.dsdl": texts[rel]}
+        if rng.random() < 0.5:
+            add[f"{m['dir']}{m['name']}.{int(m['major']) + 1}.0.dsdl"] = texts[rel]
+        if not any(k in out for k in add) and _parses(scratch, tag, dict(out, **add)):
+            out.update(add)
+    return out
+
+
+_NARROW = _re.compile(r"(?m)^((?:saturated |truncated )?u?int)(\d+)( \w+| ?\[)")
+
+
+def narrowed_prior(rng, scratch, tag, texts, n=3):
+    """An earlier revision: up to `n` nested types had a narrower first integer field (so every definition that nests
+    them had other bit lengths); None if no such revision parses."""
+    out = dict(texts)
+    refs = _referenced(texts)
+    changed = 0
+    for rel, _ in rng.sample(refs, len(refs)):
+        if changed >= n:
+            break
+        m = _NARROW.search(texts[rel])
+        if not m or int(m[2]) < 3:
+            continue
+        trial = dict(out)
+        trial[rel] = texts[rel][:m.start()] + f"{m[1]}{int(m[2]) - rng.choice([1, 1, 2])}{m[3]}" + texts[rel][m.end():]
+        if _parses(scratch, tag, trial):
+            out = trial
+            changed += 1
+    return out if changed else None
 
 
 # ------------------------------------------------------------------------------------------------------------
@@ -842,7 +1014,8 @@ class Gen:
                     tyb(False, b""), tyb(True, b"z"), tl([]), tl([ti(0)]), obj, td(False, []), td(True, []), FOREIGN, (tl([]), "tuple"), (tl([ti(0)]), "tuple")]
         if k == "C":
             right = [self.stored(ty) for _ in range(2)]
-            return right + [self.other_obj(ty["c"]), "N", ti(5), ts(b"x"), tl([]), tl([right[0]]), tb(True), tf(1.0), FOREIGN, (tl([right[0]]), "tuple")]
+            rel = [self.stored({"k": "C", "c": r}) for r in self.sch.relatives(ty["c"])]   # other versions / namesakes / look-alikes
+            return right + rel + [(right[1], "sub")] + [self.other_obj(ty["c"]), "N", ti(5), ts(b"x"), tl([]), tl([right[0]]), tb(True), tf(1.0), FOREIGN, (tl([right[0]]), "tuple")]
         raise ValueError(k)
 
     def array_cands(self, ty, full):
@@ -923,6 +1096,8 @@ class Gen:
             cid = e["c"]
             n = cap if fx and not big else m
             out.append(tl([self.other_obj(cid) for _ in range(n)]))
+            for r in self.sch.relatives(cid, 3):
+                out.append(tl([self.stored({"k": "C", "c": r}) for _ in range(n)]))
             out.append(tl([ti(1), ts(b"x")][:n] + ["N"] * max(0, n - 2)))
             out.append(tl(["N"] * n))
             out.append(ta("O", [self.other_obj(cid) for _ in range(n)]))
@@ -960,7 +1135,7 @@ class Gen:
         if ty["k"] == "A":
             return self.array_cands(ty, full)
         out = self.scalar_cands(ty)
-        if not full and len(out) > 16:
+        if not full and len(out) > 16 and ty["k"] != "C":
             out = self.rng.sample(out, 16)
         return out
 
@@ -1138,11 +1313,15 @@ class NSCheck:
         self.gen = Gen(self.sch, ctx.rng)
         self.n_ops, self.n_rt, self.ops_len = n_ops, n_rt, ops_len
         self.corpus_cases = []
+        self.real_models = {}     # class id -> describe_model(get_model(cls)) as observed in the worker
+        self.alias_seen = []      # (package, alias, observed description | None)
 
     def replay_of(self, case, extra=None):
         r = {"namespace": self.ns.label, "files": self.ns.texts, "case": case}
         if self.ns.prior:
             r["prior"] = self.ns.prior
+        if self.ns.history:
+            r["history"] = self.ns.history
         if case.get("c") is not None:
             r["class"] = self.sch.classes[case["c"]]["full"]
         r.update(extra or {})
@@ -1178,6 +1357,16 @@ class NSCheck:
                     if f["ty"]["k"] in ("I", "F", "B") and x.split()[0] in ("i", "f", "inf", "nan") and rng.random() < 0.15:
                         case["nps"] = True
                     cases.append(case)
+        for c in sch.data_classes():
+            # constructor calls handing a composite-typed parameter an instance of a relative of the declared class
+            nf = len(c["fields"])
+            for fi, f in enumerate(c["fields"]):
+                if f["ty"]["k"] == "C":
+                    for r in sch.relatives(f["ty"]["c"], 3):
+                        args = [None] * nf
+                        args[fi] = gen.stored({"k": "C", "c": r})
+                        cases.append({"k": "ops", "c": c["id"], "a": args, "ops": [], "rt": True})
+                        ctx.count("ctor-with-relative-class")
         for c in sch.data_classes():
             nf = len(c["fields"])
             if nf == 0:
@@ -1378,6 +1567,7 @@ class NSCheck:
                 ctx.disagree(kind, self.replay_of(case, {"request": req[:3000]}), ans[:400], {"r": exp[0], "v": exp[1][:400]})
         self.phase_ufb(mutate_src)
         self.phase_alias()
+        self.phase_reflect()
 
     def judge_ops(self, case, r, ans, later, mutate_src):
         ctx, sch = self.ctx, self.sch
@@ -1400,6 +1590,12 @@ class NSCheck:
             ctx.fail({"kind": "union-ctor-two-args"}, "a union constructed with two options does not raise", self.replay_of(case, {"observed": r["v"][:300]}))
         if r["r"] != "ok":
             return
+        for i, sl in enumerate(slots_of(parse(r["v"]))):
+            bad = None if sl[0] == "N" and c["union"] else check_stored(c["fields"][i]["ty"], sl)
+            if bad is not None:
+                key = {"kind": "array-element-range-unchecked", "elem": "int", "src": "stored"} if bad == "elem-range" else {"kind": "stored-ill-typed", "what": bad, "by": "constructor"}
+                ctx.fail(key, f"the constructor returned an object whose field {c['fields'][i]['name']} holds an ill-typed value ({bad}): {unparse(sl)[:80]}",
+                         self.replay_of(case, {"observed": r["v"][:400]}))
         if c["union"]:
             self.judge_union_state(case, r["v"], None, "constructor")
             if nargs == 0 and [i for i, s in enumerate(slots_of(parse(r["v"]))) if s[0] != "N"] != [0]:
@@ -1440,6 +1636,7 @@ class NSCheck:
         m = sch.models[case["c"]]
         ctx.case(("model", c["full"]), True)
         ctx.count("model-compared")
+        self.real_models[case["c"]] = r["model"]
         if any(x != y for x, y in zip(c["ns"], c["pkg"])):
             ctx.count("class-in-stropped-namespace")
         if ans is not None:
@@ -1511,6 +1708,8 @@ class NSCheck:
             ctx.case(("alias", case["mod"], tuple(sorted(tys))), len(tys) > len(exp))
             ctx.count("alias-packages")
             got = {a: (v["minor"] if v else None) for a, v in r["aliases"].items()}
+            for a, v in sorted(r["aliases"].items()):
+                self.alias_seen.append((case["mod"], a, v["model"] if v else None))
             if ans is not None:
                 ctx.traces += 1
                 toks = [] if ans == "-" else ans.split()
@@ -1525,10 +1724,177 @@ class NSCheck:
                              f"package alias {case['mod']}.{a} does not refer to the newest minor version {a}_{mi}: {v}",
                              {"namespace": self.ns.label, "files": self.ns.texts, "case": case, "expected": exp, "observed": r["aliases"]})
 
+    # ---- reflection: which model is behind get_model(C); alias-built instances; service classes ------------------
+    def gen_pkg(self, m):
+        """Namespace components of a composite as generated (reserved names carry a trailing underscore)."""
+        d, comps = pathlib.Path(self.ns.out), []
+        for comp in m.name_components[:-1]:
+            pick = comp if (d / comp).is_dir() or not (d / (comp + "_")).is_dir() else comp + "_"
+            comps.append(pick)
+            d = d / pick
+        return comps
+
+    def phase_reflect(self):
+        """Tie of Model/PyReflect.lean: every generation run of the history (or the single run) goes to the model as
+        (package, name, version, opaque model word [, request, response]); the model says which word is behind
+        get_model of every class, of every package alias and of modules that are no longer part of the last run;
+        the real side is get_model() of the imported classes, described and digested the same way."""
+        ctx, sch, pydsdl = self.ctx, self.sch, self.sch.pydsdl
+        runs = list(self.ns.revision_models) + [self.ns.composites]
+        words, keys = [], []
+        for comps in runs:
+            row, ks = [], set()
+            for m in sorted(comps, key=lambda m: (m.full_name, m.version)):
+                svc = isinstance(m, pydsdl.ServiceType)
+                row.append(" ".join([".".join(self.gen_pkg(m)), m.short_name, str(m.version.major), str(m.version.minor), digest(describe_model(m)),
+                                     digest(describe_model(m.request_type)) if svc else "-", digest(describe_model(m.response_type)) if svc else "-"]))
+                ks.add((tuple(self.gen_pkg(m)), m.short_name, m.version.major, m.version.minor, svc))
+            words.append(f"{len(row)} " + " ".join(row))
+            keys.append(ks)
+        queries, expect, what = [], [], []
+        for c in sch.classes:
+            queries.append(f"cls {c['mod']} {'.'.join(c['path'])}")
+            expect.append(digest(self.real_models[c["id"]]) if c["id"] in self.real_models else "none")
+            what.append(c["full"])
+        for mod, a, desc in self.alias_seen:
+            queries.append(f"via {mod} {a}")
+            expect.append(digest(desc) if desc is not None else "none")
+            what.append(f"{mod}.{a}")
+        stale = sorted(set().union(*keys[:-1]) - keys[-1]) if len(keys) > 1 else []
+        cases = []
+        for pkg, name, ma, mi, svc in stale:
+            cases.append({"k": "stale", "mod": ".".join(pkg + (f"{name}_{ma}_{mi}",)), "path": [f"{name}_{ma}_{mi}"]})
+        for c in sch.classes:
+            if c["kind"] == "service":
+                cases.append({"k": "svc", "c": c["id"]})
+        for c in sch.data_classes():
+            for fi, f in enumerate(c["fields"]):
+                if f["ty"]["k"] == "C" and "parent" not in sch.classes[f["ty"]["c"]]:
+                    d, dm = sch.classes[f["ty"]["c"]], sch.models[f["ty"]["c"]]
+                    cases.append({"k": "setalias", "c": c["id"], "f": fi, "mod": ".".join(d["pkg"]), "alias": f"{dm.short_name}_{dm.version.major}"})
+        results = self.ns.run_worker(ctx, self.npdir, cases, "p3")[0] if cases else []
+        table = [c for c in sch.data_classes() if "parent" not in c]
+        tkeys = " ".join(f"{'.'.join(c['pkg'])} {sch.models[c['id']].short_name} {sch.models[c['id']].version.major} {sch.models[c['id']].version.minor}" for c in table)
+        lines = []
+        for case, r in zip(cases, results):
+            if "harness_error" in r:
+                raise RuntimeError(f"worker error on {case}: {r['harness_error']}\n{r.get('tb')}")
+            if case["k"] == "stale":
+                queries.append(f"cls {case['mod']} {'.'.join(case['path'])}")
+                expect.append(digest(r["model"]) if r["r"] == "ok" else "none")
+                what.append("stale " + case["mod"])
+                ctx.count("stale-modules-of-earlier-revisions")
+                lines.append(None)
+            elif case["k"] == "svc":
+                ct = f"C {case['c']} 0 0"
+                lines.append([f"tbtop 1 {ct} o {case['c']} 0", f"ufbtop 1 {ct} D d 0 0"])
+            else:
+                dcl = sch.classes[case["c"]]["fields"][case["f"]]["ty"]["c"]
+                dm = sch.models[dcl]
+                idx = [c["id"] for c in table].index(dcl)
+                lines.append([f"aliasset {len(table)} {tkeys} {idx} {case['mod']} {dm.short_name} {dm.version.major}"])
+        flat = [l for ls in lines if ls for l in ls]
+        answers = iter(self.ask(flat))
+        for case, r, ls in zip(cases, results, lines):
+            if not ls:
+                continue
+            ans = [next(answers) for _ in ls]
+            if case["k"] == "svc":
+                ctx.case(("svc-builtin", sch.classes[case["c"]]["full"]), True)
+                ctx.count("service-class-builtin-form")
+                if ans[0] is not None:
+                    ctx.traces += 2
+                    got = ["err " + r["tb"], "err " + r["ufb"]]
+                    if ans != got:
+                        ctx.disagree("service-builtin", self.replay_of(case), ans, {"to_builtin": r["tb_m"], "update_from_builtin": r["ufb_m"]})
+            else:
+                c = sch.classes[case["c"]]
+                fty = c["fields"][case["f"]]["ty"]
+                ctx.case(("setalias", c["full"], case["f"], case["alias"]), True)
+                ctx.count("alias-instance-assigned:" + r["r"])
+                if ans[0] is not None:
+                    ctx.traces += 1
+                    if ans[0] != ("ok" if r["r"] == "ok" else "err " + r["r"]):
+                        ctx.disagree("aliasset", self.replay_of(case), ans[0], {"r": r["r"], "m": r["m"], "alias_class": r["alias_cls"]})
+                if r["r"] == "ok" and (r["alias_cls"] != fty["c"] or check_stored(fty, parse(r["v"])) is not None):
+                    ctx.fail({"kind": "stored-ill-typed", "what": "class", "by": "alias-instance"},
+                             f"an instance of {case['mod']}.{case['alias']} (a different class) is stored in a field declared as {sch.classes[fty['c']]['full']}",
+                             self.replay_of(case, {"observed": r}))
+                if r["r"] != "ok" and r["alias_cls"] == fty["c"]:
+                    ctx.fail({"kind": "alias-instance-rejected"}, f"an instance of the declared class made through its alias is rejected: {r['m']}",
+                             self.replay_of(case, {"observed": r}))
+        if self.drv is not None:
+            req = f"regen {len(runs)} " + " ".join(words) + f" {len(queries)} " + " ".join(queries)
+            ans = self.ask([req])[0].split()
+            ctx.count("reflection-runs", len(runs))
+            if len(ans) != len(expect):
+                ctx.disagree("regen", {"namespace": self.ns.label, "files": self.ns.texts, "history": self.ns.history, "request": req[:2000]}, ans[:20], "answer count")
+                return
+            for q, a, e, w in zip(queries, ans, expect, what):
+                ctx.traces += 1
+                ctx.count("reflection-queries")
+                if a != e:
+                    ctx.disagree("regen", {"namespace": self.ns.label, "files": self.ns.texts, "history": self.ns.history, "query": q, "class": w},
+                                 a, {"get_model_digest": e})
+
     # ---- update_from_builtin with arbitrary dict sources -------------------------------------------------------
-    def mutate(self, ty, t, depth=0):
-        """Random edit of a builtin tree: drop keys, add an unknown key, select a second union option."""
+    def bad_value(self, ty):
+        """A source value update_from_builtin has to refuse or convert: None, wrong types, out of range, wrong length,
+        byte arrays as bytes / bytearray / str / list, non-iterables and strings for arrays of composites, positional forms."""
+        rng, k = self.ctx.rng, ty["k"]
+        if k == "I":
+            return rng.choice(["N", ts(b"x"), ts(b"7"), ti(ty["hi"] + 1), ti(ty["lo"] - 1), tf(1.5), tl([]), "nan", "inf 0", tb(True)])
+        if k == "F":
+            return rng.choice(["N", ts(b"x"), ts(b"12"), ti(10 ** 400), ti(3), tb(False), tl([])] + ([tf(1e300), ti(ty["max"] + 1)] if ty["w"] < 64 else []))
+        if k == "B":
+            return rng.choice(["N", ti(2), ti(0), ts(b""), ts(b"x"), tf(0.0), tl([])])
+        if k == "C":
+            nf = len(self.sch.classes[ty["c"]]["fields"])
+            return rng.choice(["N", ti(5), tl([]), tl([ti(1)] * (nf + 1)), tl([ti(0)] * max(nf, 1)), ts(b"ab"), tf(0.5), tb(True)])
+        e, cap = ty["e"], ty["cap"]
+        n_ok = cap if ty["fx"] else min(cap, rng.randint(0, 3))
+        n_bad = cap + 1 if cap < 64 else 0
+        if e["k"] == "C":
+            return rng.choice(["N", ti(3), tf(1.0), tb(True), ts(b"ab"[:max(1, min(2, cap))]), ts(b""), tyb(False, b"\x01\x02"[:max(1, min(2, cap))]),
+                               tl([self.builtin_of(e) for _ in range(n_bad)]), tl(["N"] * n_ok), tl([ti(1)] * n_ok)])
+        el = lambda: self.gen.cand_py_elem(e)  # noqa
+        opts = ["N", ti(1), tl([el() for _ in range(n_bad)]), tl([el() for _ in range(n_ok)]), tl((["N"] + [el() for _ in range(n_ok)])[:max(n_ok, 1)])]
+        if e["k"] == "I":
+            opts += [tl([ti(e["hi"] + 1)] + [el() for _ in range(max(n_ok - 1, 0))]), tl([ti(2 ** 70)] + [el() for _ in range(max(n_ok - 1, 0))])]
+            if not e["s"] and e["w"] <= 8:
+                raw = bytes(rng.choice(PRINTABLE) for _ in range(n_ok))
+                opts += [tyb(False, raw), tyb(True, raw), tyb(False, raw + b"0" * (cap + 1 - len(raw))), ts(raw), ts(raw + b"z" * (cap + 1 - len(raw))),
+                         tl([ti(b) for b in raw])]
+        return rng.choice(opts)
+
+    def positionalize(self, ty, t, top=True):
+        """The positional spelling of a builtin tree (lists / a bare scalar instead of dicts) when it has one: every present
+        key is a prefix of the fields (a union: its first option), recursively; None otherwise."""
         rng = self.ctx.rng
+        if t[0] == "d":
+            if ty["k"] != "C" or t[1]:
+                return None
+            c = self.sch.classes[ty["c"]]
+            present = [i for i, v in enumerate(t[2]) if v[0] != "M"]
+            if present != list(range(len(present))) or (c["union"] and present != [0]):
+                return None
+            items = [self.positionalize(c["fields"][i]["ty"], t[2][i], False) for i in present]
+            if any(x is None for x in items):
+                return None
+            if len(items) == 1 and items[0].split()[0] not in ("l", "d") and rng.random() < 0.5:
+                return items[0]       # a bare value stands for a 1-tuple
+            return tl(items)
+        if t[0] == "l" and ty["k"] == "A":
+            items = [self.positionalize(ty["e"], x, False) for x in t[1]]
+            return None if any(x is None for x in items) else tl(items)
+        return unparse(t)
+
+    def mutate(self, ty, t, depth=0):
+        """Random edit of a builtin tree: drop keys, add an unknown key, select a second union option, replace values by
+        ones update_from_builtin must refuse or convert."""
+        rng = self.ctx.rng
+        if depth and rng.random() < 0.1:
+            return self.bad_value(ty)
         if t[0] == "d" and ty["k"] == "C":
             c = self.sch.classes[ty["c"]]
             vals = list(t[2])
@@ -1569,25 +1935,34 @@ class NSCheck:
         ctx, sch, rng = self.ctx, self.sch, self.ctx.rng
         if not mutate_src:
             return
-        n = min(len(mutate_src), 60 if ctx.quick else 400)
+        n = min(len(mutate_src), 120 if ctx.quick else 600)
         cases = []
         for cid, tbt in rng.sample(mutate_src, n):
             ty = {"k": "C", "c": cid}
             src = self.mutate(ty, parse(tbt))
             dest = None if rng.random() < 0.4 else self.gen.stored(ty)
-            cases.append({"k": "ufb", "c": cid, "d": dest, "s": src})
+            case = {"k": "ufb", "c": cid, "d": dest, "s": src}
+            if rng.random() < 0.35:
+                pos = self.positionalize(ty, parse(src))
+                if pos is not None:
+                    case["s"] = pos
+                    ctx.count("ufb-positional-source")
+                    if pos.startswith("l ") and rng.random() < 0.4:
+                        case["fl"] = "tuple"
+            cases.append(case)
         results, _ = self.ns.run_worker(ctx, self.npdir, cases, "p2")
         lines = [f"ufb {sch.ctokens(c['c'])} {c['d'] if c['d'] is not None else 'D'} {c['s']}" for c in cases]
         for case, r, ans in zip(cases, results, self.ask(lines)):
             if "harness_error" in r:
                 raise RuntimeError(f"worker error on {case}: {r['harness_error']}\n{r.get('tb')}")
-            ctx.case(("ufb", case["c"], case["d"], case["s"]), True)
+            ctx.case(("ufb", case["c"], case["d"], case["s"], case.get("fl")), True)
             ctx.count("ufb-mutated:" + r["r"])
             if ans is None:
                 continue
             mc, mv = model_outcome(ans)
             if mc == "unmodelled":
                 ctx.count("unmodelled")
+                ctx.count("ufb-mutated-unmodelled")
                 continue
             ctx.traces += 1
             if mc != r["r"] or (mc == "ok" and mv != r["v"]):
@@ -1671,13 +2046,21 @@ def run(ctx):
     n_random, n_types = (2, 24) if ctx.quick else (14, 30)
     for i in range(n_random):
         g = dsdlgen.generate(ctx.rng, ctx.scratch / f"gen{i}", n_types=n_types, root_name=f"vns{i}")
-        spaces.append((f"rand{i}", dict(g.texts), False))
+        base = dict(g.texts)
+        first = narrowed_prior(ctx.rng, ctx.scratch, f"p{i}", base)
+        final = add_versions(ctx.rng, ctx.scratch, f"v{i}", base)
+        HISTORY[f"rand{i}"] = [first] if first is not None else None
+        spaces.append((f"rand{i}", final, False))
         ctx.count("random-types", len(g.types))
+        ctx.count("random-namespace-extra-versions", len(final) - len(base))
+        ctx.count("random-namespace-with-history", int(first is not None))
     ctx.extra["namespaces"] = []
     for label, files, full in spaces:
-        ns = NS(ctx, label, files, PRIOR.get(label))
+        ns = NS(ctx, label, files, PRIOR.get(label), HISTORY.get(label))
         if PRIOR.get(label):
             ctx.count("second-generation-in-one-process-classes", len(ns.schema.classes))
+        if HISTORY.get(label):
+            ctx.count("regenerated-into-same-directory-classes", len(ns.schema.classes))
         chk = NSCheck(ctx, drv, ns, npdir, full, n_ops=(4 if ctx.quick else 12), n_rt=(3 if ctx.quick else 10), ops_len=(5 if ctx.quick else 9))
         chk.corpus_cases = corpus_cases.get(label, [])
         chk.run()
@@ -1704,7 +2087,7 @@ def replay(ctx, path):
         print("nothing to replay (no failing input in the file)")
         return 1
     npdir = prepare_numpy(ctx)
-    ns = NS(ctx, "replay", rp["files"], rp.get("prior"))
+    ns = NS(ctx, "replay", rp["files"], rp.get("prior"), rp.get("history"))
     if ns.gen_error:
         print("generation failed:", ns.gen_error)
         ctx.cleanup()
@@ -1730,6 +2113,10 @@ def replay(ctx, path):
     elif k == "snan":
         if res[0]["rt"].get("ser_rt") != res[0]["rt"]["ser_o"]:
             ctx.fail({"kind": "builtin-roundtrip"}, "bytes differ", {})
+    elif k == "setalias":
+        fty = ns.schema.classes[case["c"]]["fields"][case["f"]]["ty"]
+        if res[0]["r"] == "ok" and res[0]["alias_cls"] != fty["c"]:
+            ctx.fail({"kind": "stored-ill-typed", "what": "class", "by": "alias-instance"}, "an instance of another class is stored", {})
     elif k == "ufb":
         if ns.schema.classes[case["c"]]["union"] and res[0]["r"] == "ok":
             chk.judge_union_state(case, res[0]["v"], None, "update_from_builtin")
